@@ -4,45 +4,47 @@
   Every statement is about the executable model of SuppModel/Proj/Model.lean (`run`, `request`, `fresh`),
   the one the driver `drv_proj` runs against supp's `Project` on the same histories.
 
-  `Transparent v` is the full-strength statement for the behaviour `v` of `check_changes`.
-  * For the code as it is (`.current`) it is FALSE: `Witness.C09_norm_false` (a relative import resolved
-    before the parent package's `__init__.py` is created: `_norm_cache` is never dropped).  It stays here
-    as `C09_stmt`.
-  * `C09_partial` proves it for every history whose sources use absolute imports only
-    (`absDisk`, `Op.isAbs`: decidable, evaluated by the driver on every history of every run).
+  `Transparent v` is the full-strength statement for the behaviour `v` of `check_changes`/`norm_package`:
+  histories with absolute AND relative imports, any length, any initial disk.
+  * For the code as it is (`.current`, /repo at a1df565) it is PROVED: `C09`.
   * "each edit changes the file's modification time" is `freshMtimes`: a write or touch gives the file an
-    mtime that file has not had before in the history — older or newer, no clock is assumed.  With
-    `changed` written as `<` the property fails on a 3-step history: `Witness.C09_lt_false`.
-  * The two earlier behaviours fail already on absolute imports: `Witness.C09_pinned_false`,
-    `Witness.C09_coarseOnly_false` (repaired in /repo by b5a1370 and 07fdbb8).
+    mtime that file has not had before in the history — older or newer, no clock is assumed.
+  * Earlier behaviours are refuted in SuppModel/Witness/C09.lean: `C09_pinned_false`, `C09_coarseOnly_false`
+    (repaired by b5a1370, 07fdbb8), `C09_norm_false` (`.noRenorm`: `_norm_cache` never dropped; repaired by
+    a1df565), and the seeded change `C09_lt_false` (`changed` written with `<`).
 -/
 import SuppModel.Proj.Lemmas
 
 namespace SuppModel.Props.C09
 open SuppModel.Proj
 
-/-- the property at full strength: for every history of any length (writes that create or rewrite modules,
-    touches, requests) from an empty project on any initial disk, every request's answer equals the answer
-    of a brand-new project on the disk of that moment -/
+/-- the property at full strength: for every history of any length (writes that create or rewrite modules —
+    absolute or relative imports —, touches, requests; every edit gives its file a fresh mtime) from an empty
+    project on any initial disk, every request's answer equals the answer of a brand-new project on the disk
+    of that moment -/
 def C09_stmt : Prop := Transparent .current
 
-/-- … proved for histories whose sources have absolute imports only.  `fuel` is Python's recursion limit:
-    the two answers are compared when neither computation hit it (on acyclic import graphs with `fuel`
-    above the chain length none does; the driver reports both flags for every request of every run). -/
-theorem C09_partial : TransparentAbs .current :=
-  fun _ _ ha ops hfr hops => run_transparent ops (inv_init ha) hfr hops
+/-- … holds of the code as it is.  `fuel` is Python's recursion limit: the two answers are compared when
+    neither computation hit it (on acyclic import graphs with `fuel` above the chain length none does;
+    the driver reports both flags for every request of every run). -/
+theorem C09 : C09_stmt :=
+  fun _ D0 ops hfr => run_transparent ops (inv_init D0) hfr
 
 /-- the same, spelled out -/
-theorem C09_transparent (fuel : Nat) (D0 : Disk) (ha : absDisk D0 = true) (ops : List Op)
-    (hfr : freshMtimes (seenOf D0) ops = true) (hops : ops.all Op.isAbs = true) :
+theorem C09_transparent (fuel : Nat) (D0 : Disk) (ops : List Op)
+    (hfr : freshMtimes (seenOf D0) ops = true) :
     ∀ r, r ∈ run .current fuel (World.init .current D0) ops →
       r.2.2 ≠ .recursion → fresh fuel r.1 r.2.1 ≠ .recursion → r.2.2 = fresh fuel r.1 r.2.1 :=
-  C09_partial fuel D0 ha ops hfr hops
+  C09 fuel D0 ops hfr
+
+/-- the absolute-imports instance (the statement the earlier variants are refuted against) -/
+theorem C09_partial : TransparentAbs .current :=
+  fun fuel D0 _ ops hfr _ => C09 fuel D0 ops hfr
 
 /-- repeating a request without an intervening write gives the same answer, and afterwards every request
     is answered as it would have been after the first one -/
-theorem C09_idempotent (fuel : Nat) (D0 : Disk) (ha : absDisk D0 = true) (ops : List Op)
-    (hfr : freshMtimes (seenOf D0) ops = true) (hops : ops.all Op.isAbs = true) (q : Query) :
+theorem C09_idempotent (fuel : Nat) (D0 : Disk) (ops : List Op)
+    (hfr : freshMtimes (seenOf D0) ops = true) (q : Query) :
     let w := exec .current fuel (World.init .current D0) ops
     let r1 := request .current fuel w.disk w.st q
     let r2 := request .current fuel w.disk r1.2 q
@@ -51,21 +53,22 @@ theorem C09_idempotent (fuel : Nat) (D0 : Disk) (ha : absDisk D0 = true) (ops : 
       (request .current fuel w.disk r2.2 q').1 ≠ .recursion → fresh fuel w.disk q' ≠ .recursion →
       (request .current fuel w.disk r2.2 q').1 = (request .current fuel w.disk r1.2 q').1 := by
   intro w r1 r2
-  obtain ⟨_, ⟨R, hg, hs, _⟩, _, hA⟩ := inv_exec (fuel := fuel) ops (inv_init ha) hfr hops
-  have s1 := request_spec fuel q hg hs hA
-  have s2 := request_spec fuel q s1.1 (sameByMtime_refl w.disk) hA
+  obtain ⟨_, ⟨R, hg, hs, _⟩, _⟩ := inv_exec (fuel := fuel) ops (inv_init D0) hfr
+  have s1 := request_spec fuel q hg hs
+  have s2 := request_spec fuel q s1.1 (sameByMtime_refl w.disk)
   refine ⟨fun h1 h2 hf => (s2.2 h2 hf).trans (s1.2 h1 hf).symm, fun q' h1 h2 hf => ?_⟩
-  have t1 := request_spec fuel q' s1.1 (sameByMtime_refl w.disk) hA
-  have t2 := request_spec fuel q' s2.1 (sameByMtime_refl w.disk) hA
+  have t1 := request_spec fuel q' s1.1 (sameByMtime_refl w.disk)
+  have t2 := request_spec fuel q' s2.1 (sameByMtime_refl w.disk)
   exact (t2.2 h2 hf).trans (t1.2 h1 hf).symm
 
-/-- the invariant: after any such history the project's caches are correct for every disk that has the same
-    files wherever the project has looked (so an edit elsewhere cannot matter, and an edit there is seen by
-    `check_changes`) -/
-theorem C09_invariant (fuel : Nat) (D0 : Disk) (ha : absDisk D0 = true) (ops : List Op)
-    (hfr : freshMtimes (seenOf D0) ops = true) (hops : ops.all Op.isAbs = true) :
+/-- the invariant: after any such history the project's caches (module cache, `_ref` memos, `_missing`,
+    `_norm_cache`) are correct for every disk that has the same files wherever the project has looked and the
+    same package path for every directory in `_norm_cache` (so an edit elsewhere cannot matter, and an edit
+    there is seen by `check_changes`) -/
+theorem C09_invariant (fuel : Nat) (D0 : Disk) (ops : List Op)
+    (hfr : freshMtimes (seenOf D0) ops = true) :
     ∃ seen, Inv (exec .current fuel (World.init .current D0) ops) seen :=
-  inv_exec ops (inv_init ha) hfr hops
+  inv_exec ops (inv_init D0) hfr
 
 /-! non-vacuity: a project with a star import through an unchanged importer (a = [1]: `from b import *`,
     `from b import K as M`; b = [2]: `from c import K`, own `L`; c = [3]: own `K`), an edit of the far end
@@ -81,8 +84,15 @@ def exOps : List Op :=
    .write [1] 70 [.star [2], .star [4]], .request (.lint [1] [10, 13]),
    .write [4] 10 [.bind 13 1], .request (.lint [1] [10, 13]), .request (.loc [1] none 13)]
 
-example : freshMtimes (seenOf exDisk) exOps = true ∧ absDisk exDisk = true ∧ exOps.all Op.isAbs = true := by
-  decide
+example : freshMtimes (seenOf exDisk) exOps = true := by decide
+
+-- a history with relative imports in which `zq_p8/__init__.py` appears after the relative name was resolved
+-- (the one on which the previous code was stale): fresh mtimes, no `recursion`, answers follow the disk
+example :
+    let D : Disk := [([8, 9], ⟨1, []⟩), ([8, 9, 2], ⟨2, [.bind 10 1]⟩), ([8, 9, 1], ⟨3, [.rfrm 0 [2] 10 10]⟩)]
+    let ops : List Op := [.request (.attr [8, 9] (some 1) 10), .write [8] 4 [], .request (.attr [8, 9] (some 1) 10)]
+    freshMtimes (seenOf D) ops = true ∧
+    (run .current 10 (World.init .current D) ops).map (·.2.2) = [.nothing, .payload 1] := by decide
 
 example : (run .current 10 (World.init .current exDisk) exOps).map (·.2.2) =
     [.payload 7, .names [10, 11, 12], .payload 9, .undefined [13], .undefined [], .locs [(some [1], 2), (some [4], 1)]] ∧
